@@ -212,11 +212,15 @@ func (m *RuleManager) adjustRule(r *Rule, groupID string) (err error) {
 	return nil
 }
 
-// GetRule returns the Rule with the same (group, id).
+// GetRule returns a copy of the Rule with the same (group, id). The caller is
+// free to modify it and pass it to SetRule.
 func (m *RuleManager) GetRule(group, id string) *Rule {
 	m.RLock()
 	defer m.RUnlock()
-	return m.ruleConfig.getRule([2]string{group, id})
+	if r := m.ruleConfig.getRule([2]string{group, id}); r != nil {
+		return r.Clone()
+	}
+	return nil
 }
 
 // SetRule inserts or updates a Rule.
